@@ -259,14 +259,39 @@ def linear_abstraction(assertions):
     return [go(a) for a in assertions], len(atoms)
 
 
+def divisors_of(assertions):
+    """Every non-numeral denominator occurring in the assertions (z3 division is total; Python raises on a zero divisor, so a state
+    with a zero divisor is not one the real code can evaluate - such states are excluded by assumption, and witnesses stay replayable)."""
+    seen, out, outids = set(), [], set()
+
+    def go(e):
+        i = e.get_id()
+        if i in seen:
+            return
+        seen.add(i)
+        if z3.is_app(e):
+            if e.decl().kind() == z3.Z3_OP_DIV:
+                d = e.arg(1)
+                if not (z3.is_rational_value(d) or z3.is_int_value(d)) and d.get_id() not in outids:
+                    outids.add(d.get_id())
+                    out.append(d)
+            for c in e.children():
+                go(c)
+    for a in assertions:
+        go(a)
+    return out
+
+
 class Decider:
-    """Solver ladder with bookkeeping. decide() returns ('unsat'|'sat'|'unknown', model_or_None)."""
+    """Solver ladder with bookkeeping. decide() returns ('unsat'|'sat'|'unknown', model_or_None).
+    Assumption built in: every non-numeral divisor of the query is non-zero (see divisors_of)."""
 
     def __init__(self, chk=None, timeout_ms=60000, use_cvc5=True):
         self.chk = chk
         self.timeout_ms = timeout_ms
         self.use_cvc5 = use_cvc5
         self.use_abstraction = True
+        self.assume_nonzero_divisors = True
         self.rungs = {}
         self.solver_s = 0.0
         self.queries = 0
@@ -281,6 +306,9 @@ class Decider:
 
     def decide(self, assertions, timeout_ms=None, ladder=True):
         timeout_ms = timeout_ms or self.timeout_ms
+        if self.assume_nonzero_divisors:
+            assertions = list(assertions)
+            assertions = assertions + [d != 0 for d in divisors_of(assertions)]
         if ladder and self.use_abstraction:
             # rung 0: the linear abstraction (sound for UNSAT only)
             t0 = time.time()
